@@ -426,6 +426,12 @@ func (b *assignmentBuilder) castNode(lhsType types.Type, rhs bmodel.Node) (c bmo
 		return rhs, true
 	}
 
+	if rhs.ReturnsError() {
+		// A call that also returns an error yields two values: it cannot be
+		// wrapped in a conversion or a String() call.
+		return nil, false
+	}
+
 	if b.opts.Stringer && types.AssignableTo(util.StringType(), lhsType) && util.CompliesStringer(rhs.ExprType()) {
 		return b.castNode(lhsType, bmodel.NewStringer(rhs))
 	}
